@@ -86,6 +86,22 @@ func packed(on bool, parts ...[]byte) [][]byte {
 	return out
 }
 
+// idOf: the user id of a command; `id_zeros: n` stands for n zero bytes (ids far beyond the 16-bit ENTL limit are
+// never logged byte by byte - the events carry the count)
+func idOf(c Cmd) []byte {
+	if c.has("id_zeros") {
+		return make([]byte, c.num("id_zeros"))
+	}
+	return c.bytes("id")
+}
+
+func idLog(c Cmd, id []byte) B {
+	if c.has("id_zeros") {
+		return B(nil)
+	}
+	return B(id)
+}
+
 func init() {
 	register("sm2.genkey", func(ctx *Ctx, c Cmd, ev Ev) {
 		var rd io.Reader
@@ -142,10 +158,10 @@ func init() {
 			ins = [][]byte{za, msg}
 			r, s, err = sm2.SignZa(sr, priv, za, msg)
 		case "id":
-			pk := packed(c.boolean("packed"), c.bytes("id"), c.bytes("pubx"), c.bytes("puby"), c.bytes("msg"), priv)
+			pk := packed(c.boolean("packed"), idOf(c), c.bytes("pubx"), c.bytes("puby"), c.bytes("msg"), priv)
 			id, px, py, msg := pk[0], pk[1], pk[2], pk[3]
 			priv = pk[4]
-			ins = [][]byte{id, px, py, msg}
+			ins = [][]byte{[]byte(idLog(c, id)), px, py, msg}
 			r, s, err = sm2.Sign(id, px, py, sr, priv, msg)
 		default:
 			panic("harness: bad kind")
@@ -237,10 +253,10 @@ func init() {
 			ins = [][]byte{px, py, r, s, za, msg}
 			ok, err = sm2.VerifyZa(px, py, za, msg, r, s)
 		case "id":
-			pk := packed(c.boolean("packed"), c.bytes("id"), px, py, c.bytes("msg"), r, s)
+			pk := packed(c.boolean("packed"), idOf(c), px, py, c.bytes("msg"), r, s)
 			id, msg := pk[0], pk[3]
 			px, py, r, s = pk[1], pk[2], pk[4], pk[5]
-			ins = [][]byte{px, py, r, s, id, msg}
+			ins = [][]byte{px, py, r, s, []byte(idLog(c, id)), msg}
 			ok, err = sm2.Verify(id, px, py, msg, r, s)
 		default:
 			panic("harness: bad kind")
@@ -248,12 +264,12 @@ func init() {
 		ev["ok"], ev["err"] = ok, errStr(err)
 	})
 	register("sm2.za", func(ctx *Ctx, c Cmd, ev Ev) {
-		pk := packed(c.boolean("packed"), c.bytes("id"), c.bytes("pubx"), c.bytes("puby"))
+		pk := packed(c.boolean("packed"), idOf(c), c.bytes("pubx"), c.bytes("puby"))
 		id, px, py := pk[0], pk[1], pk[2]
 		ev["za"], ev["err"] = B(nil), "unset"
 		za, err := sm2.ZA(id, px, py)
 		ev["za"], ev["err"] = B(za), errStr(err)
-		ev["ins_after"] = []B{B(id), B(px), B(py)}
+		ev["ins_after"] = []B{idLog(c, id), B(px), B(py)}
 	})
 	register("sm2.derivepublic", func(ctx *Ctx, c Cmd, ev Ev) {
 		priv := c.bytes("priv")
